@@ -153,7 +153,8 @@ def tasks (cfg : Cfg) (w : WSt) : Nat :=
 
 /-! ### timed scripts (used by the correspondence check)
 
-  A call is `(gap, delay)`: `gap` ms pass before the request is sent, the peer answers `delay` ms after that.
+  A call is `(gap, delay, copies)`: `gap` ms pass before the request is sent, the peer answers `delay` ms after
+  that, `copies` times back to back.
   The scheduler below delivers everything in time order; an answer that arrives exactly with the timer loses
   to the timer (the scripts used keep clear of ties). -/
 
@@ -183,8 +184,14 @@ inductive CallResult where
   | hung
 deriving DecidableEq, Repr
 
-/-- one request: returns the machine afterwards and what the caller saw -/
-def call (cfg : Cfg) (sim : Sim) (gap delay : Nat) : Sim × CallResult :=
+/-- `n` further copies of the answer to request `k`, read one after the other -/
+def repeatAnswer (cfg : Cfg) (w : WSt) (k : Nat) : Nat → WSt
+  | 0 => w
+  | n + 1 => repeatAnswer cfg (stepW cfg w (.answer k)) k n
+
+/-- one request whose answer (if any) reaches the CHF `copies` times: returns the machine afterwards and what
+    the caller saw -/
+def call (cfg : Cfg) (sim : Sim) (gap delay : Nat) (copies : Nat := 1) : Sim × CallResult :=
   let sim := { sim with now := sim.now + gap }
   let sim := deliverUntil cfg sim (sim.now + 1) false (sim.pending.length + 1)
   let t0 := sim.now
@@ -195,14 +202,16 @@ def call (cfg : Cfg) (sim : Sim) (gap delay : Nat) : Sim × CallResult :=
     let k := sim.w.st.next
     let sim := { sim with w := w1 }
     let tEnd := t0 + min delay cfg.timeoutMs
+    let late := List.replicate copies (t0 + delay, k)
     -- earlier answers that arrive while this request waits
     let sim := deliverUntil cfg sim tEnd true (sim.pending.length + 1)
     let sim :=
       if sim.w.st.cur.isNone then sim                                      -- completed by someone else's answer
-      else if delay < cfg.timeoutMs then { sim with w := stepW cfg sim.w (.answer k), now := tEnd }
-      else { sim with w := stepW cfg sim.w .timeout, now := tEnd, pending := (t0 + delay, k) :: sim.pending }
+      else if delay < cfg.timeoutMs then
+        { sim with w := repeatAnswer cfg (stepW cfg sim.w (.answer k)) k (copies - 1), now := tEnd }
+      else { sim with w := stepW cfg sim.w .timeout, now := tEnd, pending := late ++ sim.pending }
     let sim := if sim.w.st.log.length > logLen ∧ delay < cfg.timeoutMs ∧ sim.now < tEnd
-               then { sim with pending := (t0 + delay, k) :: sim.pending } else sim
+               then { sim with pending := late ++ sim.pending } else sim
     let sim := { sim with w := stepW cfg sim.w .ret }
     match sim.w.st.log.head? with
     | some o => (sim, .done o (sim.now - t0))
